@@ -224,21 +224,6 @@ static int numNibbles(int value) {
   return n;
 }
 
-/// Return the length of an instruction that has a relative label reference.
-/// The length of the encoding depends on the distance to the label, which in
-/// turn depends on the length of the instruction. Calculate the value by
-/// increasing the length until they match. Note that for positive references,
-/// the length of the encoding reduces the range that must be represented, and
-/// for negative references the encoding length adds to the range that must be
-/// represented.
-static int instrLen(int labelOffset, int byteOffset) {
-  int length = 1;
-  while (length < numNibbles(labelOffset - byteOffset - length)) {
-    length++;
-  }
-  return length;
-}
-
 //===---------------------------------------------------------------------===//
 // Directive data types.
 //===---------------------------------------------------------------------===//
@@ -351,17 +336,31 @@ class InstrLabel : public Directive {
   std::string label;
   int labelValue;
   bool relative;
+  // The encoded length in bytes. It only ever grows during label resolution,
+  // which guarantees that resolution terminates; an encoding longer than the
+  // minimum is emitted with redundant leading prefixes.
+  size_t size;
 public:
   InstrLabel(Token token, std::string label, bool relative) :
-      Directive(token), label(label), relative(relative) {}
+      Directive(token), label(label), labelValue(0), relative(relative), size(1) {}
   InstrLabel(Location location, Token token, std::string label, bool relative) :
-      Directive(location, token), label(label), relative(relative) {}
+      Directive(location, token), label(label), labelValue(0), relative(relative), size(1) {}
   void setLabelValue(int newValue) { labelValue = newValue; }
+  /// Return the minimum number of bytes required to encode a value.
+  static size_t encodedSize(int value) {
+    return (value < 0 && numNibbles(value) == 1) ? 2 : numNibbles(value);
+  }
+  /// Grow the encoded length, returning true if it was changed.
+  bool growSize(size_t newSize) {
+    if (newSize > size) {
+      size = newSize;
+      return true;
+    }
+    return false;
+  }
   bool operandIsLabel() const { return true; }
   bool isRelative() const { return relative; }
-  size_t getSize() const {
-    return (labelValue < 0 && numNibbles(labelValue) == 1) ? 2 : numNibbles(labelValue);
-  }
+  size_t getSize() const { return size; }
   int getValue() const { return labelValue; }
   std::string getLabel() const { return label; }
   std::string toString() const {
@@ -729,55 +728,80 @@ class CodeGen {
     }
   }
 
-  /// Iteratively update label values until the program size does not change.
-  /// Return the final size of the program.
+  /// Return true if the directive at the given index is a label that names a
+  /// data word, ie is only followed by other labels and then a DATA directive.
+  bool labelNamesData(size_t index) {
+    for (size_t i = index + 1; i < program.size(); i++) {
+      switch (program[i]->getToken()) {
+      case Token::IDENTIFIER:
+      case Token::FUNC:
+      case Token::PROC:
+        continue;
+      case Token::DATA:
+        return true;
+      default:
+        return false;
+      }
+    }
+    return false;
+  }
+
+  /// Iteratively lay out the program and update label values and label operand
+  /// values until nothing changes. Instructions with label operands start with
+  /// a one-byte encoding and only ever grow, so this always terminates.
   void resolveLabels() {
-    int lastSize = -1;
-    int byteOffset = 0;
-    //int count = 0;
-    while (lastSize != byteOffset) {
-      //std::cout << "Resolving labels iteration " << count++ << "\n";
-      lastSize = byteOffset;
-      byteOffset = 0;
-      for (auto &directive : program) {
-        if (directive->getToken() == Token::DATA) {
+    bool changed = true;
+    while (changed) {
+      changed = false;
+      // Assign byte offsets to the directives and values to the labels.
+      int byteOffset = 0;
+      for (size_t i = 0; i < program.size(); i++) {
+        auto &directive = program[i];
+        bool isLabel = directive->getToken() == Token::IDENTIFIER ||
+                       directive->getToken() == Token::FUNC ||
+                       directive->getToken() == Token::PROC;
+        if (directive->getToken() == Token::DATA || (isLabel && labelNamesData(i))) {
           // Data must be on 4-byte boundaries.
           if (byteOffset & 0x3) {
             byteOffset += 4 - (byteOffset & 0x3);
           }
         }
         // Update the label value.
-        if (directive->getToken() == Token::IDENTIFIER ||
-            directive->getToken() == Token::FUNC ||
-            directive->getToken() == Token::PROC) {
+        if (isLabel) {
           dynamic_cast<Label*>(directive.get())->setLabelValue(byteOffset);
         }
-        // Update the label operand value of an instruction, accounting for
-        // relative and absolute references.
+        directive->setByteOffset(byteOffset);
+        byteOffset += directive->getSize();
+      }
+      // Update the label operand value of each instruction, accounting for
+      // relative and absolute references, and grow its encoding if required.
+      for (auto &directive : program) {
         if (directive->operandIsLabel()) {
           auto instrLabel = dynamic_cast<InstrLabel*>(directive.get());
           if (labelMap.count(instrLabel->getLabel()) == 0) {
             throw UnknownLabelError(directive->getLocation(), instrLabel->getLabel());
           }
           int labelValue = labelMap[instrLabel->getLabel()]->getValue();
+          int byteOffset = directive->getByteOffset();
           if (instrLabel->isRelative()) {
-            int offset = labelValue - byteOffset;
-            //std::cout << "label value " << labelValue
-            //          << " byteOffset " << byteOffset
-            //          << " offset " << offset
-            //          << " instrlen " << instrLen(labelValue, byteOffset) << "\n";
-            if (offset >= 0) {
-              instrLabel->setLabelValue(offset - instrLen(labelValue, byteOffset));
-            } else {
-              instrLabel->setLabelValue(offset - instrLen(labelValue, byteOffset));
+            // The offset is relative to the end of the instruction, so depends
+            // on the length of its encoding.
+            int length = instrLabel->getSize();
+            while (length < static_cast<int>(InstrLabel::encodedSize(labelValue - byteOffset - length))) {
+              length++;
             }
+            instrLabel->setLabelValue(labelValue - byteOffset - length);
+            changed |= instrLabel->growSize(length);
           } else {
-            assert((labelValue & 0x3) == 0 && "absolute label value is not word aligned");
+            if ((labelValue & 0x3) != 0) {
+              throw Error(directive->getLocation(),
+                          (boost::format("absolute reference to label %s that is not word aligned")
+                             % instrLabel->getLabel()).str());
+            }
             instrLabel->setLabelValue(labelValue >> 2);
+            changed |= instrLabel->growSize(InstrLabel::encodedSize(labelValue >> 2));
           }
         }
-        directive->setByteOffset(byteOffset);
-        byteOffset += directive->getSize();
       }
     }
   }
